@@ -3,8 +3,8 @@ package activitypub
 // C10 — recipient computation de-duplicates without losing or inventing addressees.
 
 type vpAddr struct {
-	item Item
-	key  byte // lower-case letter identifying the addressee (scheme, case, trailing slash ignored)
+	item  Item
+	key   byte // lower-case letter identifying the addressee (scheme, case, trailing slash ignored)
 	isNil bool
 }
 
